@@ -1,6 +1,6 @@
 (* Proofs/MorxP.v — lemmas about Model/Morx.v and Model/MorxPipe.v for property C17. *)
 From Coq Require Import List NArith ZArith Bool Arith Lia Permutation.
-From RB Require Import Base.Result Model.Buffer Model.Font Model.Morx Model.MorxPipe.
+From RB Require Import Gen.MorxFeatMap Base.Result Model.Buffer Model.Font Model.Morx Model.MorxFeat Model.MorxPipe.
 Import ListNotations.
 Local Open Scope N_scope.
 
@@ -359,7 +359,7 @@ Lemma chain_flags_default : forall c, chain_flags no_feature c = mc_default_flag
 Proof.
   intro c. unfold chain_flags. generalize (mc_default_flags c).
   induction (mc_features c) as [|f t IH]; intro fl; cbn [fold_left]; [reflexivity|].
-  unfold no_feature at 1 2. rewrite andb_false_r. apply IH.
+  unfold flag_step at 2, entry_active, no_feature. rewrite andb_false_r. cbn [orb]. apply IH.
 Qed.
 
 Lemma has_spec : forall f m, has f m = true <-> N.land f m <> 0.
@@ -439,12 +439,12 @@ Qed.
 Lemma run_subtable_paired : forall ng d s p p', run_subtable ng d s p = Ok p' ->
   exists b0 b1 ops amb,
     maybe_reverse (sub_reverse d s) (p_buf p) = Ok b0 /\
-    apply_subtable (ms_kind s) ng b0 (p_ops p) = Ok (b1, ops, amb) /\
+    apply_subtable (ms_kind s) ng None b0 (p_ops p) = Ok (b1, ops, amb) /\
     maybe_reverse (sub_reverse d s) b1 = Ok (p_buf p').
 Proof.
-  intros ng d s p p' H. unfold run_subtable in H.
+  intros ng d s p p' H. unfold run_subtable, run_subtable_g in H.
   destruct (maybe_reverse (sub_reverse d s) (p_buf p)) as [b0|] eqn:E0; cbn in H; [|discriminate].
-  destruct (apply_subtable (ms_kind s) ng b0 (p_ops p)) as [[[b1 ops] amb]|] eqn:E1; cbn in H; [|discriminate].
+  destruct (apply_subtable (ms_kind s) ng None b0 (p_ops p)) as [[[b1 ops] amb]|] eqn:E1; cbn in H; [|discriminate].
   destruct (maybe_reverse (sub_reverse d s) b1) as [b2|] eqn:E2; cbn in H; [|discriminate].
   inversion H; subst p'. cbn. exists b0, b1, ops, amb. auto.
 Qed.
@@ -471,11 +471,20 @@ Section DriveTotal.
   Hypothesis Hnext : forall b b2,
     Inv b -> rest b <> [] -> next_glyph b = Ok b2 -> ok b2 = true -> Inv b2 /\ length (rest b2) < length (rest b).
 
-  Lemma drive_loop_total : forall fuel state c b ops amb,
-    Inv b -> pot b ops < fuel -> drive_loop M st ng fuel state c b ops amb <> None.
+  Lemma drive_loop_total : forall fuel state c b ops amb gate lr,
+    Inv b -> pot b ops < fuel -> drive_loop M st ng fuel state c b ops amb gate lr <> None.
   Proof.
-    induction fuel; intros state c b ops amb HI Hp; [lia|].
+    induction fuel; intros state c b ops amb gate lr HI Hp; [lia|].
     cbn [drive_loop].
+    match goal with |- match ?g with Ok _ => _ | Error _ => _ end <> None => destruct g as [[lr1 [|]]|] end; [| |discriminate].
+    2:{ (* the subtable is off in this range: the glyph is skipped *)
+      destruct (rest b) as [|x t] eqn:ER; [discriminate|].
+      destruct (ok b) eqn:EO; cbn [negb]; [|discriminate].
+      destruct (next_glyph b) as [b2|] eqn:EN; [|discriminate].
+      destruct (ok b2) eqn:EO2; [|discriminate].
+      assert (Hne : rest b <> []) by (rewrite ER; discriminate).
+      destruct (Hnext _ _ HI Hne EN EO2) as (HI2 & Hl).
+      apply IHfuel; [exact HI2|]. unfold pot in *. lia. }
     destruct (st_entry st state (cur_class st ng b)) as [e|]; [|discriminate].
     destruct (m_transition M c e b ops) as [[[[c1 b1] ops1] a1]|] eqn:ET; [|discriminate].
     destruct (rest b1) as [|x t] eqn:ER; [discriminate|].
@@ -674,11 +683,11 @@ Qed.
 Lemma inplace_drive_start : forall b, out_mode b = false -> inplace (drive_start true b).
 Proof. intros b H. unfold drive_start, inplace, inplace_inv, with_pr. cbn. auto. Qed.
 
-Lemma rearr_drive_total : forall st ng b ops state c amb, out_mode b = false ->
+Lemma rearr_drive_total : forall st ng b ops state c amb gate lr, out_mode b = false ->
   let b0 := drive_start true b in
-  drive_loop rearr_machine st ng (drive_fuel b0 ops) state c b0 ops amb <> None.
+  drive_loop rearr_machine st ng (drive_fuel b0 ops) state c b0 ops amb gate lr <> None.
 Proof.
-  intros st ng b ops state c amb Hm b0.
+  intros st ng b ops state c amb gate lr Hm b0.
   apply (drive_loop_total rearr_machine st ng inplace).
   - intros c1 e b1 ops1 c' b' ops' a HI HT _.
     destruct (rearr_transition_inplace _ _ _ _ _ _ _ _ HI HT) as [K ->].
@@ -688,11 +697,11 @@ Proof.
   - unfold drive_fuel, drive_potential, pot. lia.
 Qed.
 
-Lemma ctx_drive_total : forall subs st ng b ops state c amb, out_mode b = false ->
+Lemma ctx_drive_total : forall subs st ng b ops state c amb gate lr, out_mode b = false ->
   let b0 := drive_start true b in
-  drive_loop (ctx_machine subs ng) st ng (drive_fuel b0 ops) state c b0 ops amb <> None.
+  drive_loop (ctx_machine subs ng) st ng (drive_fuel b0 ops) state c b0 ops amb gate lr <> None.
 Proof.
-  intros subs st ng b ops state c amb Hm b0.
+  intros subs st ng b ops state c amb gate lr Hm b0.
   apply (drive_loop_total (ctx_machine subs ng) st ng inplace).
   - intros c1 e b1 ops1 c' b' ops' a HI HT _.
     destruct (ctx_transition_inplace _ _ _ _ _ _ _ _ _ _ HI HT) as [K ->].
@@ -935,11 +944,11 @@ Qed.
 Lemma clear_output_out_mode : forall b, out_mode (clear_output b) = true.
 Proof. intro b. unfold clear_output. destruct (out_mode b); reflexivity. Qed.
 
-Lemma lig_drive_total : forall actions comps ligs st ng b ops state c amb,
+Lemma lig_drive_total : forall actions comps ligs st ng b ops state c amb gate lr,
   let b0 := drive_start false b in
-  drive_loop (lig_machine actions comps ligs) st ng (drive_fuel b0 ops) state c b0 ops amb <> None.
+  drive_loop (lig_machine actions comps ligs) st ng (drive_fuel b0 ops) state c b0 ops amb gate lr <> None.
 Proof.
-  intros actions comps ligs st ng b ops state c amb b0.
+  intros actions comps ligs st ng b ops state c amb gate lr b0.
   apply (drive_loop_total (lig_machine actions comps ligs) st ng (fun b => out_mode b = true)).
   - intros c1 e b1 ops1 c' b' ops' a HI HT Hok.
     destruct (lig_transition_pot _ _ _ _ _ _ _ _ _ _ _ HI HT Hok) as (M & R & ->).
@@ -1091,11 +1100,11 @@ Proof.
       match type of E1 with bind ?x _ = _ => destruct x as [b3|] end; cbn [bind] in E1; discriminate.
 Qed.
 
-Lemma ins_drive_total : forall glyphs st ng b ops state c amb,
+Lemma ins_drive_total : forall glyphs st ng b ops state c amb gate lr,
   let b0 := drive_start false b in
-  drive_loop (ins_machine glyphs) st ng (drive_fuel b0 ops) state c b0 ops amb <> None.
+  drive_loop (ins_machine glyphs) st ng (drive_fuel b0 ops) state c b0 ops amb gate lr <> None.
 Proof.
-  intros glyphs st ng b ops state c amb b0.
+  intros glyphs st ng b ops state c amb gate lr b0.
   apply (drive_loop_total (ins_machine glyphs) st ng (fun b => out_mode b = true)).
   - intros c1 e b1 ops1 c' b' ops' a HI HT Hok. exact (ins_transition_pot _ _ _ _ _ _ _ _ _ HI HT Hok).
   - apply streaming_next_glyph.
@@ -1524,4 +1533,122 @@ Proof.
   match type of Hx with (if ?c then _ else _) = _ => replace c with true in Hx end.
   - destruct (nth_error (pre b) i); cbn in Hx; [|discriminate]. inversion Hx. unfold set_cluster. destruct (cluster i0 =? _)%N eqn:EE; [apply N.eqb_eq in EE; exact EE|reflexivity].
   - symmetry. apply andb_true_iff. split; [apply Nat.leb_le|apply Nat.ltb_lt]; lia.
+Qed.
+
+(* ------------------------------------------------------------------ chain flag compilation with user features *)
+
+Local Open Scope N_scope.
+
+(* the update of one chain feature entry, exactly *)
+Lemma flag_step_spec : forall hf flags f,
+  flag_step hf flags f =
+  if hf (mf_type f) (mf_setting f) || ((mf_type f =? 3) && (mf_setting f =? 3) && hf 37 1)
+  then N.lor (N.land flags (mf_disable f)) (mf_enable f) else flags.
+Proof. reflexivity. Qed.
+
+(* the entries act in table order: a fold from the default flags *)
+Lemma chain_flags_app : forall hf d fs1 fs2 subs,
+  chain_flags hf (mkMorxChain d (fs1 ++ fs2) subs) =
+  fold_left (flag_step hf) fs2 (chain_flags hf (mkMorxChain d fs1 subs)).
+Proof. intros. unfold chain_flags. cbn. apply fold_left_app. Qed.
+
+Lemma chain_flags_single : forall hf d f subs,
+  chain_flags hf (mkMorxChain d [f] subs) =
+  if entry_active hf f then N.lor (N.land d (mf_disable f)) (mf_enable f) else d.
+Proof. reflexivity. Qed.
+
+(* entries whose (type, setting) is not active leave the flags alone *)
+Lemma chain_flags_inactive : forall hf c,
+  (forall f, In f (mc_features c) -> entry_active hf f = false) -> chain_flags hf c = mc_default_flags c.
+Proof.
+  intros hf c. unfold chain_flags. generalize (mc_default_flags c).
+  induction (mc_features c) as [|f t IH]; intros fl H; cbn [fold_left]; [reflexivity|].
+  unfold flag_step at 2. rewrite (H f (or_introl eq_refl)). apply IH. intros g Hg. apply H. now right.
+Qed.
+
+(* no feat table: no user feature is ever added; one range, no active feature *)
+Lemma add_features_nofeat : forall fs, add_features None fs = Ok [].
+Proof. induction fs as [|f t IH]; cbn; [reflexivity|]. rewrite IH. reflexivity. Qed.
+
+Lemma user_ranges_nofeat : forall fs, user_ranges None fs = Ok [([], 0, U32MAX)].
+Proof. intro fs. unfold user_ranges. rewrite add_features_nofeat. reflexivity. Qed.
+
+Lemma has_feature_nil : forall k s, has_feature [] k s = false.
+Proof. reflexivity. Qed.
+
+Lemma run_chain_nofeat : forall ng d c p,
+  run_chain ng d [([], 0, U32MAX)] c p = run_subtables ng d (mc_default_flags c) (mc_subtables c) p.
+Proof.
+  intros. unfold run_chain, chain_rflags. cbn [map].
+  replace (chain_flags (has_feature []) c) with (mc_default_flags c); [reflexivity|].
+  symmetry. apply chain_flags_inactive. intros f _. unfold entry_active. cbn. apply andb_false_r.
+Qed.
+
+(* a user feature the font's feat table does not expose (no record of the mapped type with a setting,
+   and no letter-case fallback), or whose tag has no AAT mapping, contributes nothing *)
+Lemma add_feature_unmapped : forall t f, uf_tag f <> TAG_AALT ->
+  mapping_find aat_feature_mappings (uf_tag f) = None -> add_feature (Some t) f = Ok [].
+Proof.
+  intros t f Ha Hm. unfold add_feature. apply N.eqb_neq in Ha. rewrite Ha, Hm. reflexivity.
+Qed.
+
+Lemma add_feature_unexposed : forall t f ty en dis, uf_tag f <> TAG_AALT ->
+  mapping_find aat_feature_mappings (uf_tag f) = Some (ty, en, dis) ->
+  feat_exposed t ty = None ->
+  ((ty =? aat_type_lower_case) && (en =? aat_selector_lower_case_small_caps) = false \/
+   feat_exposed t aat_type_letter_case = None) ->
+  add_feature (Some t) f = Ok [].
+Proof.
+  intros t f ty en dis Ha Hm He Hf. unfold add_feature. apply N.eqb_neq in Ha. rewrite Ha, Hm, He.
+  destruct Hf as [Hf|Hf]; [rewrite Hf; reflexivity|].
+  destruct ((ty =? aat_type_lower_case) && (en =? aat_selector_lower_case_small_caps)); rewrite ?Hf; reflexivity.
+Qed.
+
+Lemma add_feature_aalt_unexposed : forall t f, uf_tag f = TAG_AALT ->
+  feat_exposed t aat_type_character_alternatives = None -> add_feature (Some t) f = Ok [].
+Proof. intros t f Ha He. unfold add_feature. rewrite Ha, N.eqb_refl, He. reflexivity. Qed.
+
+(* ... so the compiled ranges are those of the request without it *)
+Lemma add_features_app : forall feat fs1 fs2,
+  add_features feat (fs1 ++ fs2) = (do a <- add_features feat fs1; do b <- add_features feat fs2; Ok (a ++ b)).
+Proof.
+  induction fs1 as [|f t IH]; intros fs2; cbn [app add_features bind].
+  - destruct (add_features feat fs2); reflexivity.
+  - destruct (add_feature feat f) as [a|]; cbn [bind]; [|reflexivity].
+    rewrite IH. destruct (add_features feat t) as [b|]; cbn [bind]; [|reflexivity].
+    destruct (add_features feat fs2) as [c|]; cbn [bind]; [|reflexivity]. now rewrite app_assoc.
+Qed.
+
+Lemma user_ranges_skip : forall feat fs1 f fs2, add_feature feat f = Ok [] ->
+  user_ranges feat (fs1 ++ f :: fs2) = user_ranges feat (fs1 ++ fs2).
+Proof.
+  intros feat fs1 f fs2 H. unfold user_ranges. rewrite !add_features_app. cbn [add_features]. rewrite H.
+  cbn [bind]. destruct (add_features feat fs1) as [a|]; cbn [bind]; [|reflexivity].
+  destruct (add_features feat fs2) as [b|]; cbn [bind]; reflexivity.
+Qed.
+
+(* one global feature: one range in which exactly it is active *)
+Lemma finfo_eqb_refl : forall i, finfo_eqb i i = true.
+Proof. intros [k s e]. unfold finfo_eqb. cbn. rewrite !N.eqb_refl. destruct e; reflexivity. Qed.
+
+Lemma compile_ranges_global : forall i, compile_ranges [mkFR i 0 U32MAX] = [([i], 0, U32MAX)].
+Proof.
+  intros [k s e]. unfold compile_ranges, events_of, stable_sort, U32MAX. cbn. reflexivity.
+Qed.
+
+(* a feature restricted to clusters [a, b): three ranges, active only in the middle one *)
+Lemma compile_ranges_ranged : forall i a b, 0 < a -> a < b -> b < U32MAX ->
+  compile_ranges [mkFR i a b] = [([], 0, a - 1); ([i], a, b - 1); ([], b, U32MAX)].
+Proof.
+  intros [k s e] a b Ha Hab Hb. unfold compile_ranges, events_of. cbn [map concat fr_start fr_end fr_info app].
+  assert (E1 : (a =? b) = false) by (apply N.eqb_neq; intro; subst; now apply N.lt_irrefl in Hab).
+  rewrite E1. unfold stable_sort. cbn [fold_left insert_stable app event_lt].
+  assert (E2 : (b =? a) = false) by (rewrite N.eqb_sym; exact E1).
+  assert (E3 : (b <? a) = false) by (apply N.ltb_ge; now apply N.lt_le_incl).
+  rewrite E2, E3. cbn [negb]. cbn [app scan_events].
+  assert (E4 : (a =? 0) = false) by (apply N.eqb_neq; intro; subst; now apply N.lt_irrefl in Ha).
+  assert (E5 : (U32MAX =? b) = false) by (apply N.eqb_neq; intro Q; rewrite Q in Hb; now apply N.lt_irrefl in Hb).
+  rewrite E4. cbn [negb app]. rewrite E2. cbn [negb remove_first finfo_eqb fi_kind fi_setting fi_excl].
+  rewrite (finfo_eqb_refl (mkFI k s e)), E5. cbn [negb rev app].
+  unfold set_last_global, current_features, stable_sort. cbn. reflexivity.
 Qed.
